@@ -387,7 +387,7 @@ func runC07(c *Ctx) {
 				}
 			}
 		}
-		za := c.Fn("agreement.zeroAction")
+		za := c07MappingFn(c)
 		for _, k := range consts {
 			name := k.obj.Name()
 			got, how := aEvalSwitch(za, k.val)
@@ -436,7 +436,7 @@ func runC07(c *Ctx) {
 		}
 		dec := c.Fn("agreement.decode")
 		okDec, n := true, 0
-		for _, zc := range CallsTo(dec, false, c.Func("agreement.zeroAction")) {
+		for _, zc := range CallsTo(dec, false, c07MappingFn(c).Object().(*types.Func)) {
 			n++
 			i, ok := elemOf(zc.Common().Args[0], fTypes)
 			if !ok {
@@ -454,6 +454,10 @@ func runC07(c *Ctx) {
 				}
 				for _, sv := range localStores(al) {
 					if sv == zc.Value() && Dominates(zc, dc) {
+						paired = true
+					}
+					// (value, error) form of the mapping function
+					if ex, isEx := sv.(*ssa.Extract); isEx && ex.Tuple == ssa.Value(zc.Value()) && ex.Index == 0 && Dominates(zc, dc) {
 						paired = true
 					}
 				}
@@ -603,7 +607,12 @@ func aEvalSwitch(fn *ssa.Function, k int64) (types.Type, string) {
 		last := b.Instrs[len(b.Instrs)-1]
 		switch x := last.(type) {
 		case *ssa.Return:
-			if len(x.Results) != 1 {
+			// (action) or (action, error): with an error result, a non-nil error is "no case"
+			if len(x.Results) == 2 && isErrorType(x.Results[1].Type()) {
+				if k2, isK := x.Results[1].(*ssa.Const); !isK || !k2.IsNil() {
+					return nil, "returns an error for this value"
+				}
+			} else if len(x.Results) != 1 {
 				return nil, "unexpected result arity"
 			}
 			if mi, ok := x.Results[0].(*ssa.MakeInterface); ok {
